@@ -1,9 +1,10 @@
 #!/bin/sh
-# Offline setup: build the Fortran extensions from /repo, regenerate HoloGen, build the Lean project.
+# Offline setup: build the Fortran extensions from /repo, regenerate HoloGen, build the whole Lean project
+# (models, regenerated models, every property theorem) so that the checks only rebuild what changed.
 set -e
 cd "$(dirname "$0")"
 /venv/bin/python -m harness.extbuild
 /venv/bin/python -m harness.translate
 cd lean
-lake build 2>&1 | tail -5
+lake build 2>&1 | grep -v '^✔' | tail -15 || true
 echo "genfailures" | lake env lean --run Main.lean
